@@ -3,7 +3,7 @@
 set -e
 cd /verif/coq
 [ -f Makefile ] || coq_makefile -f _CoqProject -o Makefile >/dev/null 2>&1
-timeout 3000 make -j16 >/verif/.build/coq_make.log 2>&1 || { tail -30 /verif/.build/coq_make.log; exit 1; }
+timeout 3000 make -j16 theories/Export.vo >/verif/.build/coq_make.log 2>&1 || { tail -30 /verif/.build/coq_make.log; exit 1; }
 mkdir -p /verif/.build/ml
 cd /verif/coq/extract
 if [ ! -f /verif/.build/ml/ircmodel ] || [ ../theories/Export.vo -nt /verif/.build/ml/ircmodel ] || [ driver.ml -nt /verif/.build/ml/ircmodel ]; then
